@@ -182,7 +182,7 @@ CHECKS = {
              "SetEstimate/Predict/Update behaviours of Formak.tla -- including singular-Jacobian models -- and the behaviours are replayed "
              "into the Python filter (never refused, values match). Rounding part: seeded randomised histories of up to 200 steps on the "
              "project's mass/z/v/a model, exactly correlated states, a nonlinear calibrated model, a zero-Jacobian-row model and TLC-drawn "
-             "models are recorded (outcome, validity of input and output covariance) and validated by TLC against the protocol CovGate_Trace. Thorough tier: every model / filter call the repository's own test-suite executes is recorded (pytest plugin, /repo untouched), projected against the Jacobian trees Derive.tla derives from the recorded definition and validated by EKFCalls_Trace.tla. The exact behaviours start from covariances D + v v^T that are singular for some rotations and are replayed into the generated C++ filter too. A third family of histories has almost exact sensors (noise 1e-12..1e-10 under covariances of 1..1e5): refusals of strictly valid inputs only.",
+             "models are recorded (outcome, validity of input and output covariance) and validated by TLC against the protocol CovGate_Trace. Thorough tier: every model / filter call the repository's own test-suite executes is recorded (pytest plugin, /repo untouched), projected against the Jacobian trees Derive.tla derives from the recorded definition and validated by EKFCalls_Trace.tla. The exact behaviours start from covariances D + v v^T that are singular for some rotations and are replayed into the generated C++ filter too. A third family of histories has almost exact sensors (noise 1e-12..1e-10 under covariances of 1..1e5): refusals of strictly valid inputs only. The histories on which the repaired defects D14 and D15 were found are replayed on every run; a fifth model has a two-reading sensor in which large correlated variances cancel (diagonal starts with one variance of 1e8..1e11).",
         design_ref="DESIGN.md section 4 C09 / section 6",
         note="The rounding claim itself is decided by the NumPy projection (relative 1e-9 symmetry / eigenvalue test); TLC checks the exact "
              "update forms and the protocol. Stated in DESIGN.md section 6 as the weakest property for this technique.",
@@ -195,7 +195,7 @@ CHECKS = {
              "from_dict / from_data. Formak.tla draws, per definition, a bijective renaming whose sort order is unrelated; TLC checks as an "
              "invariant that the spec's named outputs are invariant, and original, renamed twin and a list/reversed-order presentation are "
              "replayed into Python and generated C++ (same named outputs). The layouts published by Model, SensorModel, ExtendedKalmanFilter, "
-             "State classes, the probed C++ field rows and the SensorId order must equal the spec's SortNames.",
+             "State classes, the probed C++ field rows and the SensorId order must equal the spec's SortNames. The C++ replays prefer definitions whose names sort differently by code point and ignoring case.",
         design_ref="DESIGN.md section 4 C13",
         note="Trusted: Names.tla's code-point order as the definition of 'the library's name order'; C++ via the Eigen stand-in.",
         technique="TLA+ specs (Binding.tla exhaustive; Formak.tla renaming invariant) + spec->code replay of originals and renamed twins",
